@@ -15,6 +15,7 @@ import (
 
 	"verif/harness/internal/c16"
 	"verif/harness/internal/c20"
+	"verif/harness/internal/callback"
 	"verif/harness/internal/sso"
 )
 
@@ -37,6 +38,8 @@ func main() {
 	stdlog.SetOutput(io.Discard)
 	var err error
 	switch prop {
+	case "C01", "C03", "C10":
+		err = callback.Run(prop, *out, *tier, *seed)
 	case "C02", "C05", "C06", "C08":
 		err = sso.Run(prop, *out, *tier, *seed)
 	case "C16":
